@@ -80,6 +80,7 @@ def expected(x, nodata, c0, c1):
     if p0 is None or p0 > 0.9:
         return None
     cal = xf[c0:c1]
+    cal = cal[cal != nodata]  # a nodata cell is not an observation, whatever the sign of the placeholder
     pos = cal[cal > 0]
     if np.unique(pos).size < 2:
         return None
@@ -132,6 +133,7 @@ def s_interval(x, nodata, c0, c1, exp, dtype):
     """
     xf = np.asarray(x, dtype=np.float64)
     cal = xf[c0:c1]
+    cal = cal[cal != nodata]
     pos = cal[cal > 0]
     m = float(np.mean(pos))
     lg = max(1.0, float(np.max(np.abs(np.log(pos)))))
@@ -175,10 +177,11 @@ def check_pixel(R, x, nodata, c0, c1, meta, mp_check=False):
         return
     # --- gammafit / gammastd (njit, float result)
     if dtype != "float32":
-        a, b = st.gammafit(x[c0:c1])
+        xc = x[c0:c1]
+        a, b = st.gammafit(xc[xc != nodata])
         R.count("gammafit_calls")
         # the root is ill-conditioned in s for near-constant data: d(alpha)/alpha = -ds/s, ds ~ rounding of log(mean) - mean(log)
-        pos = np.asarray(x[c0:c1], dtype=np.float64)
+        pos = np.asarray(xc[xc != nodata], dtype=np.float64)
         pos = pos[pos > 0]
         rtol = max(1e-9, 64 * 2.0 ** -53 * max(1.0, float(np.max(np.abs(np.log(pos))))) / exp["s"])
         R.note_max("max_alpha_rtol_used", rtol)
@@ -204,7 +207,8 @@ def check_pixel(R, x, nodata, c0, c1, meta, mp_check=False):
         if compare_int(R, gg, x, nodata, exp, case, "gammastd_grp", interval) is False:
             return
     if mp_check:
-        r = O.spi_mp(np.asarray(x, dtype=np.float64), nodata, np.asarray(x, dtype=np.float64)[c0:c1])
+        xw = np.asarray(x, dtype=np.float64)[c0:c1]
+        r = O.spi_mp(np.asarray(x, dtype=np.float64), nodata, xw[xw != nodata])
         if r is not None:
             a_mp, b_mp, p0_mp, vals = r
             R.count("mpmath_pixels")
